@@ -170,8 +170,13 @@ class MaterialFile(BaseMaterial):
         """
         c = self.coefficients
         try:
-            n = c[0] + c[1]*w**c[2] / (w**2 - c[3]**c[4]) + \
-                c[5]*w**c[6] / (w**2 - c[7]**c[8])
+            # unused terms are stored with zero coefficients (0 w^0 / (w^2 -
+            # 0^0)): they are 0, also at w = 1 where the expression is 0/0
+            n = c[0]
+            if c[1] != 0:
+                n = n + c[1]*w**c[2] / (w**2 - c[3]**c[4])
+            if c[5] != 0:
+                n = n + c[5]*w**c[6] / (w**2 - c[7]**c[8])
             for k in range(9, len(c), 2):
                 n += c[k]*w**c[k+1]
             return np.sqrt(n)
